@@ -39,6 +39,9 @@ static inline _Bool vset_insert(vset *s, int id) { /* returns .second of std::se
   VERIF_STD_PRE(s->nins < VSET_CAP, "model bound: at most two insertions into m_used_files per call of use()");
   s->ins[s->nins] = id; s->nins = s->nins + 1; return 1; }
 typedef struct Engine { size_t npaths; vset m_used_files; } Engine;
+/* the used-file set is keyed by the resolved name; the requested spelling t_filename is a different name (id -1) */
+#define VERIF_NAME_appendedpath appendedpath
+#define VERIF_NAME_t_filename (-1)
 /* ghosts written by the eval_file stub and the return rule */
 size_t verif_evaluations; int verif_evaluated_id; size_t verif_ret_index; size_t verif_k; int verif_old_path_k;
 int verif_eval_file(Engine *self, int id, int *efile);
@@ -100,9 +103,9 @@ def build(prop, tier="quick"):
     r.add("R0.lock2", r"\bchaiscript::detail::threading::unique_lock<chaiscript::detail::threading::shared_mutex> l2\(m_mutex\);", "/* R0: lock */")
     r.add("R0.lock3", r"\bl2\.(?:un)?lock\(\);", "/* R0: lock */")
     r.add("R9.retdecl", r"\bBoxed_Value retval;", "int retval = 0;", min_fire=1)
-    r.add("R9.count", r"\bm_used_files\.count\(appendedpath\)", "vset_count(&self->m_used_files, appendedpath)")
-    r.add("R9.insert2", r"\bm_used_files\.insert\(appendedpath\)\.second", "vset_insert(&self->m_used_files, appendedpath)")
-    r.add("R9.insert", r"\bm_used_files\.insert\(appendedpath\);", "(void)vset_insert(&self->m_used_files, appendedpath);")
+    r.add("R9.count", r"\bm_used_files\.count\((appendedpath|t_filename)\)", r"vset_count(&self->m_used_files, VERIF_NAME_\1)")
+    r.add("R9.insert2", r"\bm_used_files\.insert\((appendedpath|t_filename)\)\.second", r"vset_insert(&self->m_used_files, VERIF_NAME_\1)")
+    r.add("R9.insert", r"\bm_used_files\.insert\((appendedpath|t_filename)\);", r"(void)vset_insert(&self->m_used_files, VERIF_NAME_\1);")
     r.add("R9.eval", r"\bretval = eval_file\(appendedpath\);",
           "{ const int verif_exc = verif_eval_file(self, appendedpath, &verif_efile); retval = 1; if (verif_exc == K_file_not_found_error) VERIF_GOTO_CATCH; "
           "if (verif_exc != K_none) VERIF_PROPAGATE(K_other, \"an error while evaluating the file\"); }", min_fire=1)
